@@ -317,6 +317,13 @@ func (x *Exec) storeVal(st *State, addr Val, v Val, reach Term, pos token.Pos) {
 	}
 	if l := x.ptrLoc(addr); l != nil {
 		x.lockCheck(st, l, true, reach, pos)
+		if at, ok := under(l.T).(*types.Array); ok && l.ArrRegion != "" && v.S != "" && v.S != l.ArrRegion {
+			// assignment of a whole array (array values are region ids): the elements are copied
+			key, srt := x.elemKey(at.Elem())
+			h := x.heapGet(st, key, srt)
+			st.heap[key] = x.name("h", srt, store(h, l.ArrRegion, sel(h, v.S)))
+			return
+		}
 		x.storeLoc(st, l, v.S)
 		return
 	}
